@@ -18,7 +18,7 @@ def c_canonical(t):
 def rand_kwaj(rng):
     """a KWAJ file with random optional headers and one of the modelled methods"""
     from vlib import sweep
-    comp = rng.choice([0, 1, 2, 4, 4, 0, 7])
+    comp = rng.choice([0, 1, 2, 3, 3, 4, 4, 0, 7])
     flags = rng.randrange(64)
     plain = bytes(rng.choice(b"abcdefgh \n") for _ in range(rng.choice([0, 1, 50, 3000, 40000])))
     if comp == 0: body = plain
@@ -30,6 +30,11 @@ def rand_kwaj(rng):
             z = b"CK" + zlib.compress(plain[k:k + 32768], rng.choice([0, 6, 9]))[2:-4]
             body += struct.pack("<H", len(z) & 0xFFFF) + z
         body += b"\0\0"
+    elif comp == 3:
+        from vlib import lzhenc
+        r = lzhenc.generate(rng, rng.choice([1, 2, 6, 40, 300]), want_pad=rng.choice([None, 0]), final=rng.choice([None, "M", "R"]))
+        if r is None: r = lzhenc.generate(rng, 5)
+        body, plain = r[0], r[1]
     else: body = plain
     hdr = b""
     if flags & 1: hdr += struct.pack("<I", len(plain))
